@@ -10,6 +10,7 @@ import (
 	standardaccountmanager "github.com/attestantio/dirk/services/accountmanager/standard"
 	standardwalletmanager "github.com/attestantio/dirk/services/walletmanager/standard"
 	"os"
+	"path/filepath"
 	"reflect"
 	"sort"
 	"strconv"
@@ -22,6 +23,7 @@ import (
 
 	"github.com/attestantio/dirk/core"
 	"github.com/attestantio/dirk/rules"
+	standardrules "github.com/attestantio/dirk/rules/standard"
 	"github.com/attestantio/dirk/services/checker"
 	"github.com/attestantio/dirk/util/verifhook"
 	spec "github.com/attestantio/go-eth2-client/spec/phase0"
@@ -356,6 +358,34 @@ func (w *world) execCtx(ctx context.Context, f []string) string {
 	case "restart":
 		w.restart()
 		return "ok"
+	case "twinprop", "twinatt":
+		// twinprop <client> <addr> <proposal A> <proposal B>: while this instance is running, a SECOND rules service is opened
+		// on the same storage path (an overlapping restart, a second daemon, an export run).  It must be refused (the
+		// directory lock).  If it opens, this instance signs A and the twin is asked to approve B for the same key.
+		tctx, tcancel := context.WithCancel(context.Background())
+		twin, err := standardrules.New(tctx, standardrules.WithStoragePath(filepath.Join(w.dir, "storage")), standardrules.WithAdminIPs(w.adminIPs))
+		if err != nil {
+			tcancel()
+			return "refused"
+		}
+		a := parseAddr(f[2])
+		out := "opened"
+		_, acct, ferr := w.fetchForTwin(ctx, a)
+		if ferr == nil {
+			md := &rules.ReqMetadata{Account: acct.Name(), PubKey: acct.PublicKey().Marshal(), Client: unhexStr(f[1])}
+			if f[0] == "twinprop" {
+				r1, sig := w.signer.SignBeaconProposal(ctx, creds(unhexStr(f[1]), ""), a.name, a.key, parseProp(strings.Split(f[3], ",")))
+				r2 := twin.OnSignBeaconProposal(ctx, md, parseProp(strings.Split(f[4], ",")))
+				out = fmt.Sprintf("opened:%s:%v", posStr(r1, sig), r2)
+			} else {
+				r1, sig := w.signer.SignBeaconAttestation(ctx, creds(unhexStr(f[1]), ""), a.name, a.key, parseAtt(strings.Split(f[3], ",")))
+				r2 := twin.OnSignBeaconAttestation(ctx, md, parseAtt(strings.Split(f[4], ",")))
+				out = fmt.Sprintf("opened:%s:%v", posStr(r1, sig), r2)
+			}
+		}
+		_ = twin.Close(context.Background())
+		tcancel()
+		return out
 	case "pause":
 		ms, _ := strconv.Atoi(f[1])
 		time.Sleep(time.Duration(ms) * time.Millisecond)
@@ -577,4 +607,12 @@ func init() {
 		defer dynMu.Unlock()
 		return dynKeys[path]
 	}
+}
+
+// fetchForTwin resolves an address the way the signer does (by key if given, else by name).
+func (w *world) fetchForTwin(ctx context.Context, a addr) (e2wtypes.Wallet, e2wtypes.Account, error) {
+	if a.key != nil {
+		return w.fetcher.FetchAccountByKey(ctx, a.key)
+	}
+	return w.fetcher.FetchAccount(ctx, a.name)
 }
